@@ -338,6 +338,12 @@ package logqlengine
 
 // The bytes fed to the hash for one visible (name, value) pair frame both strings: the name is
 // terminated (label names contain no NUL), the value is preceded by its length.
+// The key is the hash of exactly what the visible pairs fed: the digest starts empty (so a set with
+// no visible label has the key hash64(""), the key (*emptyLabels).Key must agree with).
+//@ func (*aggregatedLabels).Key
+//@   capture nw = call(xxhash.New, 0)
+//@   capture fe = call(a.forEach, 0)
+//@   ensures[hash-of-what-the-visible-pairs-fed] nw_called && fe_called && before(fe_called, digestStream(h)) == "" && ret0 == hash64(digestStream(h))
 //@ func (*aggregatedLabels).Key$1
 //@   ensures[framed-pair] digestStream(h) == old(digestStream(h)) + k + "\x00" + strconv.Itoa(len(v)) + "\x00" + v
 
